@@ -1333,6 +1333,12 @@ func (eng *Engine) SolveAll(obs []*Oblig) {
 				}
 				return
 			}
+			// tactic: X mod c == Y mod c from a hypothesis A == B (or a disjunction of such) with A - X the zero
+			// polynomial and every coefficient of B - Y divisible by the constant c (exact polynomial arithmetic)
+			if modCongruence(o.Hyps, o.Goal) {
+				o.Res = SolveResult{Verdict: Proved, Solver: "simplifier", Detail: "mod-congruence rule (polynomial normal form)"}
+				return
+			}
 			// first try with the cone of influence of the goal (hypotheses connected to the goal
 			// through shared variables; dropping hypotheses is sound), then with everything
 			sl := coneOfInfluence(o.Hyps, o.Goal)
@@ -1405,6 +1411,26 @@ func (eng *Engine) SolveAll(obs []*Oblig) {
 			}()
 		}
 		wg2.Wait()
+		// third attempt, one at a time (no contention with our own solver processes), for the few still undecided
+		var again []*Oblig
+		for _, o := range retry {
+			if o.Res.Verdict == Unknown {
+				again = append(again, o)
+			}
+		}
+		if len(again) <= 4 {
+			for _, o := range again {
+				hy := o.Hyps
+				if o.AltHyps != nil {
+					hy = o.AltHyps
+				}
+				r := Solve(BuildQuery(coneOfInfluence(hy, o.Goal), o.Goal, o.Opaque, o.Abstract), 3*eng.timeoutS, true)
+				if r.Verdict != Unknown {
+					r.Detail = "third attempt, run alone (earlier attempts timed out)"
+					o.Res = r
+				}
+			}
+		}
 	}
 	// return-path covers: a case split makes some return paths infeasible, which is fine;
 	// it is a vacuity failure only if *every* return path of a function case is infeasible
@@ -1669,4 +1695,103 @@ func (ex *exec) freshLogical(st *State, lv LogicalVar) Value {
 	}
 	ex.fail(token.NoPos, "logical variable kind %s", lv.Kind)
 	return nil
+}
+
+// modCongruence decides goals of the form (X mod c) == (Y mod c), c a positive constant, from one hypothesis that is an
+// equation A == B or a disjunction of equations A_i == B_i such that, for every disjunct, X - A_i is the zero polynomial and
+// all coefficients of B_i - Y are multiples of c (or the same with the sides exchanged).
+func modCongruence(hyps []*Term, goal *Term) bool {
+	if goal == nil || goal.Op != "=" || len(goal.Args) != 2 {
+		return false
+	}
+	l, r := goal.Args[0], goal.Args[1]
+	if l.Op != "mod" || r.Op != "mod" || l.Args[1] != r.Args[1] || l.Args[1].Val == nil || l.Args[1].Val.Sign() <= 0 {
+		return false
+	}
+	c := l.Args[1].Val
+	X, Y := polyOf(l.Args[0]), polyOf(r.Args[0])
+	divisible := func(p *Poly) bool {
+		for _, m := range p.ms {
+			if new(big.Int).Mod(m.coef, c).Sign() != 0 {
+				return false
+			}
+		}
+		return true
+	}
+	// equations atom == term among the hypotheses, used to normalise differences
+	subst := map[*Term]*Term{}
+	for _, h := range hyps {
+		if h.Op == "=" && len(h.Args) == 2 && h.Args[0].Sort.K == KInt {
+			a, b := h.Args[0], h.Args[1]
+			if a.Op == "var" && !occurs(a, b) {
+				if _, ok := subst[a]; !ok {
+					subst[a] = b
+				}
+			} else if b.Op == "var" && !occurs(b, a) {
+				if _, ok := subst[b]; !ok {
+					subst[b] = a
+				}
+			}
+		}
+	}
+	zero := func(p *Poly) bool {
+		for i := 0; i < 6 && len(p.ms) > 0; i++ {
+			changed := false
+			t := p.substTerm(func(a *Term) *Term {
+				if r, ok := subst[a]; ok {
+					changed = true
+					return r
+				}
+				return a
+			})
+			p = polyOf(t)
+			if !changed {
+				break
+			}
+		}
+		return len(p.ms) == 0
+	}
+	okEq := func(e *Term) bool {
+		if e.Op != "=" || len(e.Args) != 2 || e.Args[0].Sort.K != KInt {
+			return false
+		}
+		A, B := polyOf(e.Args[0]), polyOf(e.Args[1])
+		if divisible(polySub(B, Y)) && zero(polySub(X, A)) {
+			return true
+		}
+		if divisible(polySub(A, Y)) && zero(polySub(X, B)) {
+			return true
+		}
+		return false
+	}
+	if os.Getenv("GOVC_DEBUG_MODC") != "" {
+		for _, h := range hyps {
+			if h.Op == "or" {
+				for _, d := range h.Args {
+					if d.Op == "=" && d.Args[0].Sort.K == KInt {
+						A, B := polyOf(d.Args[0]), polyOf(d.Args[1])
+						fmt.Fprintf(os.Stderr, "modc: disjunct |X-A|=%d |X-B|=%d |B-Y|=%d |A-Y|=%d divBY=%v\n", len(polySub(X, A).ms), len(polySub(X, B).ms), len(polySub(B, Y).ms), len(polySub(A, Y).ms), divisible(polySub(B, Y)))
+					}
+				}
+			}
+		}
+	}
+	for _, h := range hyps {
+		if okEq(h) {
+			return true
+		}
+		if h.Op == "or" {
+			all := len(h.Args) > 0
+			for _, d := range h.Args {
+				if !okEq(d) {
+					all = false
+					break
+				}
+			}
+			if all {
+				return true
+			}
+		}
+	}
+	return false
 }
